@@ -1,5 +1,6 @@
 -- REGENERATED on every run by harness/translate/carried.py from the current source (do not edit)
--- property C03: findings of the carried-state analysis that are not on record in carried_baseline.json
+-- findings of the carried-state analysis (entry points and modules of the property being checked) that are
+-- not on record in carried_baseline.json
 namespace TopSearch.Gen.Carried
 def unrecorded : List String := []
 end TopSearch.Gen.Carried
